@@ -158,19 +158,20 @@ func cpuSeconds() float64 {
 }
 
 type checker struct {
-	r        *rep.R
-	notes    fieldNotes
-	outcomes [nEntries][4]atomic.Int64
-	kinds    sync.Map
-	rawSkips atomic.Int64
-	rawOK    atomic.Int64
-	usable   atomic.Int64
-	mutants  atomic.Int64
-	accepted atomic.Int64
-	nonfatal atomic.Int64
-	doubles  atomic.Int64
-	concats  atomic.Int64
-	wd       watchdog
+	r         *rep.R
+	notes     fieldNotes
+	outcomes  [nEntries][4]atomic.Int64
+	kinds     sync.Map
+	rawSkips  atomic.Int64
+	rawOK     atomic.Int64
+	usable    atomic.Int64
+	mutants   atomic.Int64
+	accepted  atomic.Int64
+	nonfatal  atomic.Int64
+	doubles   atomic.Int64
+	laxChecks atomic.Int64
+	concats   atomic.Int64
+	wd        watchdog
 }
 
 // watchdog: "terminates" is observed as "returns within 60 s" (typical: 50 µs).
@@ -340,6 +341,12 @@ func certRegions(top *node, tbsOnly bool) (tbs, iss, sub, spki region, ok bool) 
 	ch := t.children
 	i := 0
 	if len(ch) > 0 && ch[0].tag == 0xa0 {
+		// asn1 (like encoding/asn1) reads the element inside an EXPLICIT wrapper and goes on after
+		// it, whatever length the wrapper declares: when the wrapper's content is not exactly one
+		// TLV there are two readings of the input and no offset can be demanded
+		if len(ch[0].children) != 1 {
+			return
+		}
 		i = 1
 	}
 	if len(ch) < i+6 {
@@ -364,7 +371,25 @@ func (c *checker) rawCert(cert *x509.Certificate, in []byte, top *node, tbsOnly 
 	c.rawEq("Raw", cert.Raw, in, region{top.hdrStart, top.end - top.hdrStart}, d)
 	tbs, iss, sub, spki, ok := certRegions(top, tbsOnly)
 	if !ok {
+		// framing ambiguous: still, every raw field must be a run of input bytes, in field order
 		c.rawSkips.Add(1)
+		pos := 0
+		for _, f := range []struct {
+			name string
+			b    []byte
+		}{{"RawTBSCertificate", cert.RawTBSCertificate}, {"RawIssuer", cert.RawIssuer}, {"RawSubject", cert.RawSubject}, {"RawSubjectPublicKeyInfo", cert.RawSubjectPublicKeyInfo}} {
+			k := bytes.Index(in[pos:], f.b)
+			if k < 0 || len(f.b) == 0 {
+				d.Got = fmt.Sprintf("%s = %d bytes %s", f.name, len(f.b), rep.Hex(f.b))
+				c.viol("raw-slice: "+d.Entry+" "+f.name+" is not a sub-slice of the input", d.Got, d)
+				return
+			}
+			if f.name != "RawTBSCertificate" {
+				pos += k + len(f.b)
+			} else {
+				pos += k + 1
+			}
+		}
 		return
 	}
 	c.rawEq("RawTBSCertificate", cert.RawTBSCertificate, in, tbs, d)
@@ -382,7 +407,7 @@ func (c *checker) use(e int, obj any, d caseDesc) {
 		c.usable.Add(1)
 		if pan {
 			d.Got = "panic: " + msg
-			c.viol("usable-object: "+what+" panics on an object returned by "+d.Entry+": "+coarse(msg), what+" panicked: "+msg+"\n"+stack, d)
+			c.viol("usable-object: "+what+" panics on a returned object: "+coarse(msg), what+" panicked on the object returned by "+d.Entry+": "+msg+"\n"+stack, d)
 		}
 	}
 	switch o := obj.(type) {
@@ -393,6 +418,14 @@ func (c *checker) use(e int, obj any, d caseDesc) {
 		probe("CertificateRequest.CheckSignature", func() { _ = o.CheckSignature() })
 	case *x509.CertificateList:
 		probe("CertificateList.ExpiredAt", func() { _ = o.ExpiredAt(time.Unix(0, 0)) })
+	default:
+		if e == ePKIX {
+			// a bare public key: used the way the package uses it, as the key of a certificate
+			holder := &x509.Certificate{PublicKey: obj}
+			for _, alg := range []x509.SignatureAlgorithm{x509.SHA256WithRSA, x509.ECDSAWithSHA256, x509.PureEd25519} {
+				probe("Certificate.CheckSignature", func() { _ = holder.CheckSignature(alg, []byte("message"), make([]byte, 64)) })
+			}
+		}
 	}
 }
 
@@ -458,8 +491,9 @@ func sameOutcome(a, b result) bool {
 }
 
 // checkInput runs one byte string through every entry point and applies oracles
-// (1) (2) (3) (5) and the usability probe. It returns the ParseCertificate class.
-func (c *checker) checkInput(in []byte, d caseDesc, pemToo bool) int {
+// (1) (2) (3) (5) and the usability probe. It returns the ParseCertificate and
+// ParseTBSCertificate classes.
+func (c *checker) checkInput(in []byte, d caseDesc, pemToo bool) (certCls, tbsCls int) {
 	d.in = in
 	id := c.wd.enter(d)
 	defer c.wd.leave(id)
@@ -560,7 +594,7 @@ func (c *checker) checkInput(in []byte, d caseDesc, pemToo bool) int {
 	if anyNon {
 		c.nonfatal.Add(1)
 	}
-	return res[eCert].cls
+	return res[eCert].cls, res[eTBS].cls
 }
 
 // ---------------------------------------------------------------- (a) conformance
@@ -604,6 +638,17 @@ func (c *checker) conformCert(b *built) {
 		}
 	}
 	fork := res.obj.(*x509.Certificate)
+	if b.Expect != nil {
+		if msg := b.Expect(fork); msg != "" {
+			d.Got = msg
+			c.viol("conformance: fork-only field differs from the template ("+strings.TrimPrefix(b.Name, "rich:")+")", msg, d)
+		}
+	}
+	if b.IgnoreUnhandled {
+		fc, sc := *fork, *std
+		fc.UnhandledCriticalExtensions, sc.UnhandledCriticalExtensions = nil, nil
+		fork, std = &fc, &sc
+	}
 	if w, fv, sv := compareObjects("Certificate", fork, std, &c.notes); w != "" {
 		d.Got, d.Want = fv, sv
 		c.viol("conformance: field "+w+" differs from crypto/x509", fmt.Sprintf("encoder %s, template %s: %s: fork %s, crypto/x509 %s", enc, b.Name, w, fv, sv), d)
@@ -642,6 +687,9 @@ func (c *checker) conformCert(b *built) {
 			c.rawCert(&ft, tb, ttops[0], true, dt)
 			// same values as the full parse, but for the outer fields
 			ft.Raw, ft.Signature = fork.Raw, fork.Signature
+			if b.IgnoreUnhandled {
+				ft.UnhandledCriticalExtensions = nil
+			}
 			if w, fv, sv := compareObjects("Certificate", &ft, std, &c.notes); w != "" {
 				dt.Got, dt.Want = fv, sv
 				c.viol("conformance: ParseTBSCertificate field "+w+" differs from crypto/x509", fmt.Sprintf("template %s: %s: fork %s, crypto/x509 %s", b.Name, w, fv, sv), dt)
@@ -716,7 +764,13 @@ func (c *checker) conformOther(b *built) {
 				}
 			}
 			cl := res.obj.(*x509.CertificateList)
-			c.compareList(cl, rl, s1, d)
+			c.compareList(cl, rl, s1, d, b.ExpectList != nil)
+			if b.ExpectList != nil {
+				if msg := b.ExpectList(cl); msg != "" {
+					d.Got = msg
+					c.viol("conformance: "+entries[e].name+" cracked-out CRL extension differs from the template", msg, d)
+				}
+			}
 			c.r.Nontrivial("a|" + entries[e].name + string(b.DER))
 		}
 	case "pkix":
@@ -742,7 +796,7 @@ func (c *checker) conformOther(b *built) {
 
 // compareList: the fork's cracked-out CertificateList against std's
 // RevocationList (different object models: compared member by member).
-func (c *checker) compareList(cl *x509.CertificateList, rl *sx.RevocationList, old *spkix.CertificateList, d caseDesc) {
+func (c *checker) compareList(cl *x509.CertificateList, rl *sx.RevocationList, old *spkix.CertificateList, d caseDesc, delta bool) {
 	bad := func(field string, f, s any) {
 		d.Got, d.Want = fmt.Sprint(f), fmt.Sprint(s)
 		c.viol("conformance: "+d.Entry+" "+field+" differs from crypto/x509.ParseRevocationList", fmt.Sprintf("%s: fork %v, std %v", field, f, s), d)
@@ -772,7 +826,7 @@ func (c *checker) compareList(cl *x509.CertificateList, rl *sx.RevocationList, o
 	if !bytes.Equal(t.AuthorityKeyID, rl.AuthorityKeyId) {
 		bad("AuthorityKeyID", t.AuthorityKeyID, rl.AuthorityKeyId)
 	}
-	if t.BaseCRLNumber != -1 {
+	if t.BaseCRLNumber != -1 && !delta {
 		bad("BaseCRLNumber", t.BaseCRLNumber, -1)
 	}
 	if old != nil {
@@ -817,16 +871,16 @@ type dimSpec struct {
 func bin() []int { return []int{0, 1} }
 
 func templateDims(thorough bool) []dimSpec {
-	san, nc, val := []int{0, 15}, []int{0, 3}, []int{-1}
+	san, nc, val, key := []int{0, 15}, []int{0, 3}, []int{-1}, []int{-1}
 	if thorough {
 		san = []int{0, 1, 2, 3, 4, 5, 6, 7, 8, 9, 10, 11, 12, 13, 14, 15}
 		nc = []int{0, 1, 2, 3}
-		val = []int{0, 1, 2}
+		key = []int{0, 1, 2}
 	}
 	return []dimSpec{
 		{"subj", bin()}, {"san", san}, {"ku", bin()}, {"eku", bin()}, {"bc", []int{0, 1, 2, 3, 4}}, {"nc", nc},
 		{"pol", bin()}, {"aia", bin()}, {"crldp", bin()}, {"ski", bin()}, {"aki", bin()}, {"unkcrit", bin()}, {"unknon", bin()},
-		{"val", val}, {"key", []int{0, 1, 2}}, {"enc", bin()},
+		{"val", val}, {"key", key}, {"enc", bin()},
 	}
 }
 
@@ -836,15 +890,19 @@ func featAt(ds []dimSpec, idx []int) feat {
 		Crldp: v(8) == 1, Ski: v(9) == 1, Aki: v(10) == 1, UnkCrit: v(11) == 1, UnkNon: v(12) == 1, Val: v(13), Key: v(14), Enc: v(15)}
 	// validity (quick) and serial size rotate over the template index so that every
 	// value meets every value of every other dimension (checked and reported).
-	h, s := 0, 0
+	h, s, g := 0, 0, 0
 	for i := 0; i < 13; i++ {
 		h += idx[i] * (i + 1)
 		s += idx[i]
+		g += idx[i] * (i%2 + 1)
 	}
 	if f.Val < 0 {
 		f.Val = h % 3
 	}
 	f.Serial = (h/3 + s) % 3
+	if f.Key < 0 {
+		f.Key = (g + h/9) % 3 // quick: the key type rotates too
+	}
 	return f
 }
 
@@ -957,6 +1015,56 @@ func nodePath(n *node) string {
 	return strings.Join(parts, "/")
 }
 
+var ekuOID = []byte{0x55, 0x1d, 0x25}
+
+// interpreted reports whether node n of a generated certificate (tbsOnly: bare
+// TBSCertificate) is one the parser decodes with its strict-then-lax ASN.1
+// reader: everything outside extension values and outside the outer signature,
+// plus the KeyPurposeIds of an extended-key-usage extension.
+func interpreted(buf []byte, n *node, tbsOnly bool) bool {
+	inValue := false
+	for x := n; x != nil; x = x.parent {
+		if x.tag == 0x04 {
+			inValue = true
+			// the Extension this value belongs to
+			if p := x.parent; p != nil && len(p.children) > 0 && p.children[0].tag == 0x06 &&
+				bytes.Equal(buf[p.children[0].valStart:p.children[0].end], ekuOID) && n.tag == 0x06 {
+				return true
+			}
+		}
+		if !tbsOnly && x.parent != nil && x.parent.parent == nil && len(x.parent.children) == 3 && x == x.parent.children[2] {
+			return false // signatureValue
+		}
+		if !tbsOnly && x.parent != nil && x.parent.parent == nil && x == x.parent.children[1] && n != x && n != x.children[0] {
+			return false // parameters of the outer signatureAlgorithm
+		}
+	}
+	if inValue {
+		return false
+	}
+	// AlgorithmIdentifier parameters are kept raw
+	if p := n.parent; p != nil && len(p.children) == 2 && p.children[0].tag == 0x06 && p.children[1] == n && p.tag == 0x30 && n.tag != 0x13 && !stringTags[n.tag] {
+		return false
+	}
+	return true
+}
+
+// laxOnly: the mutation kind produces a malformation that asn1's strict mode
+// refuses and its documented lax mode tolerates, at a node of this type.
+func laxOnly(kind string, n *node) bool {
+	switch kind {
+	case "int-nonminimal":
+		return n.tag == 0x02
+	case "oid-empty":
+		return n.tag == 0x06
+	case "printable-latin1":
+		return n.tag == 0x13
+	case "retag-printable-latin1":
+		return stringTags[n.tag]
+	}
+	return false
+}
+
 type mseed struct {
 	b     *built
 	nodes []*node
@@ -974,7 +1082,7 @@ func TestCheck(t *testing.T) {
 			defer func() { pprof.StopCPUProfile(); f.Close() }()
 		}
 	}
-	r.Rule("(a) templates = product of {multi-valued subject with every string type, SAN dns/email/ip/uri (thorough: every subset), key usage, EKU known+unknown, basic constraints absent/non-CA/CA/pathlen 0/pathlen 3, name constraints permitted+excluded of each type (thorough: each side alone too), policies, AIA ocsp+issuer, CRL DPs, SKI, AKI, unknown critical ext, unknown non-critical ext} x key {P-256, RSA-2048, Ed25519} x encoder {crypto/x509.CreateCertificate, ref/der+ref/pki}; validity {<2050, straddling, >=2050} (thorough: full factor; quick: rotated) and serial size {1, 8 with top bit, 20 octets} rotated over the index so that each meets every value of every other factor, plus their full 3x3 product on the all-off and all-on templates; 17 syntax-rich der-only certificates; CRLs (two std encoders), PKIX/PKCS1/PKCS8/SEC1 keys, CSRs. (b) seeds {all-off, all-on, each feature alone} x key x encoder, their bare TBSCertificates, the CRLs/keys/CSRs and the repository's testdata certificates x every TLV node (descending into OCTET/BIT STRING wrappers) x every mutation of the catalogue, each through all 13 parser entry points (thorough: a second mutation of the lax-tolerated kinds at every node of every mutant of the all-on/all-off seeds, and all pairs on the smallest seed). (c) concatenations of 2 and 3 of {clean, non-fatal, fatal} elements. distinct_nontrivial = distinct conformance inputs + distinct mutated inputs for which at least one entry point returned an object")
+	r.Rule("(a) templates = product of {multi-valued subject with every string type, SAN dns/email/ip/uri (thorough: every subset), key usage, EKU known+unknown, basic constraints absent/non-CA/CA/pathlen 0/pathlen 3, name constraints permitted+excluded of each type (thorough: each side alone too), policies, AIA ocsp+issuer, CRL DPs, SKI, AKI, unknown critical ext, unknown non-critical ext} x key {P-256, RSA-2048, Ed25519} x encoder {crypto/x509.CreateCertificate, ref/der+ref/pki}; validity {<2050, straddling, >=2050} and serial size {1, 8 with top bit, 20 octets} rotated over the index so that each meets every value of every other factor, plus their full 3x3 product on the all-off and all-on templates; 17 syntax-rich der-only certificates; CRLs (two std encoders), PKIX/PKCS1/PKCS8/SEC1 keys, CSRs. (b) seeds {all-off, all-on, each feature alone} x key x encoder, their bare TBSCertificates, the CRLs/keys/CSRs and the repository's testdata certificates x every TLV node (descending into OCTET/BIT STRING wrappers) x every mutation of the catalogue, each through all 13 parser entry points (thorough: a second mutation of the lax-tolerated kinds at every node of every mutant of the all-on/all-off seeds, and all pairs on the smallest seed). (c) concatenations of 2 and 3 of {clean, non-fatal, fatal} elements. distinct_nontrivial = distinct conformance inputs + distinct mutated inputs for which at least one entry point returned an object")
 	r.Assume("a parser call that does not return within 60 s counts as non-terminating (typical call: 50 µs)",
 		"crypto/x509 of go1.23 is the reference for field values; fields only one object model has are skipped and listed under coverage.fields_one_side_lacks",
 		"ParseCertificates on k concatenated parts is expected to be fatal iff ParseCertificate of some part alone is fatal (the API has one error for the whole slice)",
@@ -998,31 +1106,35 @@ func TestCheck(t *testing.T) {
 	cov := map[pairKey]bool{}
 	nT := enum.Size(dims)
 	r.Set("a_templates", nT)
-	done := enum.ParFor(nT, r.Expired, func(i int) {
-		idx := enum.Decode(i, dims, nil)
-		f := featAt(ds, idx)
-		pan, msg, stack := enum.Catch(func() { c.conformCert(buildCert(f)) })
-		if pan {
-			r.Violation("harness-panic", msg+"\n"+stack, f.String())
-		}
-		if f.Enc == 0 && f.Key == 0 {
-			covMu.Lock()
-			for dimi := 0; dimi < 13; dimi++ {
-				cov[pairKey{dimi, idx[dimi], f.Val, f.Serial}] = true
+	// the big product runs last (below), after the cheaper phases
+	product := func() {
+		done := enum.ParFor(nT, r.Expired, func(i int) {
+			idx := enum.Decode(i, dims, nil)
+			f := featAt(ds, idx)
+			pan, msg, stack := enum.Catch(func() { c.conformCert(buildCert(f)) })
+			if pan {
+				r.Violation("harness-panic", msg+"\n"+stack, f.String())
 			}
-			covMu.Unlock()
-		}
-	})
-	if !done {
-		r.Capped("deadline reached before all templates of (a) were run")
-	} else {
-		want := 0
-		for dimi := 0; dimi < 13; dimi++ {
-			want += dims[dimi] * 9
-		}
-		r.Set("a_rotated_validity_serial_meets_every_factor_value", fmt.Sprintf("%d of %d (factor value, validity, serial) triples", len(cov), want))
-		if len(cov) != want {
-			r.Violation("harness: rotation does not cover every (factor value, validity, serial) triple", fmt.Sprint(len(cov), want), nil)
+			if f.Enc == 0 {
+				covMu.Lock()
+				for dimi := 0; dimi < 13; dimi++ {
+					cov[pairKey{dimi, idx[dimi], f.Val, f.Serial}] = true
+					cov[pairKey{dimi, idx[dimi], -1 - f.Key, 0}] = true
+				}
+				covMu.Unlock()
+			}
+		})
+		if !done {
+			r.Capped("deadline reached before all templates of (a) were run")
+		} else {
+			want := 0
+			for dimi := 0; dimi < 13; dimi++ {
+				want += dims[dimi] * (9 + 3)
+			}
+			r.Set("a_rotated_factors_meet_every_value_of_every_other_factor", fmt.Sprintf("%d of %d (factor value, validity, serial) and (factor value, key) combinations", len(cov), want))
+			if len(cov) != want {
+				r.Violation("harness: rotation does not cover every (factor value, validity, serial) / (factor value, key) combination", fmt.Sprint(len(cov), want), nil)
+			}
 		}
 	}
 	var extra []*built
@@ -1050,7 +1162,7 @@ func TestCheck(t *testing.T) {
 			r.Violation("harness-panic", msg+"\n"+stack, extra[i].Name)
 		}
 	})
-	others := append(append(stdCRLs(), stdKeys()...), stdCSRs()...)
+	others := append(append(append(richCRLs(), stdCRLs()...), stdKeys()...), stdCSRs()...)
 	r.Set("a_crls_keys_csrs", len(others))
 	enum.ParFor(len(others), nil, func(i int) {
 		pan, msg, stack := enum.Catch(func() { c.conformOther(others[i]) })
@@ -1059,7 +1171,7 @@ func TestCheck(t *testing.T) {
 		}
 	})
 
-	phase("a")
+	phase("a_small")
 	// ---------------- (b)
 	var seeds []*mseed
 	addSeed := func(b *built, deep bool) {
@@ -1096,7 +1208,7 @@ func TestCheck(t *testing.T) {
 		addSeed(b, false)
 	}
 	for i, b := range others {
-		if !th && b.Kind == "crl" && i%3 != 0 {
+		if !th && b.Kind == "crl" && i%3 != 0 && i > 1 {
 			continue
 		}
 		addSeed(b, false)
@@ -1125,14 +1237,28 @@ func TestCheck(t *testing.T) {
 	}
 	r.Set("b_seeds", len(seeds))
 	r.Set("b_tlv_nodes", totalNodes)
-	done = enum.ParFor(len(tasks), r.Expired, func(i int) {
+	done := enum.ParFor(len(tasks), r.Expired, func(i int) {
 		s := seeds[tasks[i].s]
 		n := s.nodes[tasks[i].n]
 		pan, msg, stack := enum.Catch(func() {
 			for _, m := range mutate(s.b.DER, n, nil) {
 				c.kinds.Store(m.kind, true)
 				c.mutants.Add(1)
-				c.checkInput(m.data, caseDesc{Part: "b:one-mutation", Seed: s.b.Name, Mutation: m.kind + " at node " + nodePath(n)}, s.b.Kind == "crl")
+				d := caseDesc{Part: "b:one-mutation", Seed: s.b.Name, Mutation: m.kind + " at node " + nodePath(n)}
+				cc, tc := c.checkInput(m.data, d, s.b.Kind == "crl")
+				// (6) a lax-only malformation at an interpreted node is never reported as "no error"
+				if (s.b.Kind == "cert" || s.b.Kind == "tbs") && laxOnly(m.kind, n) && interpreted(s.b.DER, n, s.b.Kind == "tbs") {
+					cls, name := cc, "ParseCertificate"
+					if s.b.Kind == "tbs" {
+						cls, name = tc, "ParseTBSCertificate"
+					}
+					c.laxChecks.Add(1)
+					if cls == clsOK {
+						d.in, d.Entry, d.Got, d.Want = m.data, name, "err == nil", "a non-fatal (or fatal) error"
+						c.viol("lax-visibility: "+name+" reports no error for a "+m.kind+" malformation it only accepts in lax mode",
+							"the strict parse must have failed on "+d.Mutation+", yet the error was not reported", d)
+					}
+				}
 			}
 		})
 		if pan {
@@ -1194,6 +1320,9 @@ func TestCheck(t *testing.T) {
 	// ---------------- (c)
 	c.concatPhase(th)
 	phase("c")
+	// ---------------- (a) the template product
+	product()
+	phase("a_product")
 
 	// ---------------- evidence
 	oc := map[string]map[string]int64{}
@@ -1216,6 +1345,7 @@ func TestCheck(t *testing.T) {
 	r.Set("raw_field_comparisons", c.rawOK.Load())
 	r.Set("raw_field_checks_skipped_shape_unknown_to_walker", c.rawSkips.Load())
 	r.Set("usability_probes", c.usable.Load())
+	r.Set("b_lax_visibility_checks", c.laxChecks.Load())
 	r.Set("fields_one_side_lacks", c.notes.list())
 	pprof.StopCPUProfile()
 	r.Finish()
@@ -1349,8 +1479,9 @@ func (c *checker) concatPhase(th bool) {
 	})
 	// triples: every element at each position among every ordered pair of the small set
 	tripleAll := all
-	if !th && len(tripleAll) > 400 {
-		tripleAll = tripleAll[:400]
+	if !th {
+		// quick: triples only with one element of each (mutation kind, class) at every position
+		tripleAll = small
 	}
 	n = len(tripleAll)
 	done2 := enum.ParFor(n*m*m*3, r.Expired, func(i int) {
